@@ -126,6 +126,46 @@ func c03LoopAssign(r *Run) {
 	}
 }
 
+// one condition text decides alike wherever it stands - as v-if, v-else-if, v-show and as the value of a :class object
+// key - also when it is an operator expression that begins and ends with a quoted literal
+func c03QuotedExpressions(r *Run) {
+	for _, mode := range []string{"a", "b", "z", ""} {
+		for _, c := range []struct {
+			text string
+			want func(m string) bool
+		}{
+			{`'a' == mode || mode == 'b'`, func(m string) bool { return m == "a" || m == "b" }},
+			{`'z' != mode && mode != ''`, func(m string) bool { return m != "z" && m != "" }},
+			{`mode == 'a'`, func(m string) bool { return m == "a" }},
+			{`'a' == mode`, func(m string) bool { return m == "a" }},
+			{`'' == mode || 'z' == mode`, func(m string) bool { return m == "" || m == "z" }},
+			{`"a" == mode || mode == "b"`, func(m string) bool { return m == "a" || m == "b" }},
+		} {
+			text := strings.ReplaceAll(c.text, `"`, "&quot;")
+			tpl := `<p v-if="` + text + `" data-p="if">x</p><p v-else data-p="else">x</p>` +
+				`<p v-if="no" data-p="n">x</p><p v-else-if="` + text + `" data-p="elseif">x</p>` +
+				`<i v-show="` + text + `" data-p="show">x</i><b :class="{on: ` + text + `}" data-p="class">x</b>`
+			out, err := c03RenderAny(tpl, map[string]any{"mode": mode, "no": false})
+			want := c.want(mode)
+			got := map[string]bool{
+				"v-if":         strings.Contains(out, `data-p="if"`),
+				"v-else-if":    strings.Contains(out, `data-p="elseif"`),
+				"v-show":       !regexp.MustCompile(`<i[^>]*display:\s*none[^>]*data-p="show"|<i[^>]*data-p="show"[^>]*display:\s*none`).MatchString(out),
+				"class-object": regexp.MustCompile(`<b[^>]*class="on"`).MatchString(out),
+			}
+			r.Eval("quoted-expression:"+mode+":"+c.text, true, nil)
+			r.Count("stream:quoted-expressions(oracle only)")
+			for pos, g := range got {
+				if err != nil || g != want {
+					r.Fail("a condition decides differently at one position than the others", map[string]string{"oracle": "quoted-expression", "position": pos},
+						map[string]any{"expression": c.text, "mode": mode, "expected": want, "positions": fmt.Sprint(got), "output": out, "err": fmt.Sprint(err)})
+					break
+				}
+			}
+		}
+	}
+}
+
 func init() { streams["C03"] = runC03 }
 
 // One engine, one chain whose conditions compare the loop variable with literals, over items of mixed Go
@@ -238,6 +278,7 @@ func c03LiteralWhitespace(r *Run) {
 
 func runC03(r *Run) {
 	c03LoopAssign(r)
+	c03QuotedExpressions(r)
 	c03LiteralWhitespace(r)
 	c03TypedChains(r)
 	r.Imports = []string{"Base.Val", "Model.Chain", "Model.Truthy"}
